@@ -214,6 +214,8 @@ Qed.
 Lemma Forall2_In_l {A B} (P : A -> B -> Prop) l1 l2 x : Forall2 P l1 l2 -> In x l1 -> exists y, In y l2 /\ P x y.
 Proof. intros HF. induction HF; intros []; [subst; eexists; split; [now left|eassumption]|]. destruct (IHHF H0) as (y' & ? & ?). exists y'. split; [now right|assumption]. Qed.
 
+Lemma Forall2_In_r {A B} (P : A -> B -> Prop) l1 l2 y : Forall2 P l1 l2 -> In y l2 -> exists x, In x l1 /\ P x y.
+Proof. intros HF. induction HF; intros []; [subst; eexists; split; [now left|eassumption]|]. destruct (IHHF H0) as (x' & ? & ?). exists x'. split; [now right|assumption]. Qed.
 Lemma npara_pidx rs : npara (Node ROOT rs) = pidx rs.
 Proof. reflexivity. Qed.
 Lemma paragraphs_nth pre P post : is_paragraph P = true -> nth_error (paragraphs (Node ROOT (pre ++ P :: post))) (pidx pre) = Some P.
@@ -433,4 +435,123 @@ Proof.
     eexists. eexists. split.
     { cbn [run_hop]. unfold mbind. rewrite Rn. reflexivity. }
     exists tid, ri, dt, rs, mregs. repeat split; auto.
+Qed.
+
+(* ------------------------------------------------------------------ add_paragraph / insert_paragraph *)
+Lemma count_nodes_all l : forallb is_node l = true -> count_nodes l = length l.
+Proof.
+  unfold count_nodes. induction l as [|x r IH]; [reflexivity|]. cbn [forallb filter]. intros H. apply andb_prop in H as [H1 H2].
+  rewrite H1. cbn [length]. now rewrite IH.
+Qed.
+(* ensure_trailing_newline on a root whose children are nodes changes the last child only, and
+   not its kind *)
+Lemma ensure_nl_list_nodes rs : forallb is_node rs = true ->
+  forallb is_node (ensure_nl_list rs) = true /\ length (ensure_nl_list rs) = length rs /\
+  pidx (ensure_nl_list rs) = pidx rs /\
+  (forall n c, live_at rs n c -> live_at (ensure_nl_list rs) n c).
+Proof.
+  intros H. destruct rs as [|x0 r0] using rev_ind; [repeat split; auto|]. clear IHr0.
+  assert (E : ensure_nl_list (r0 ++ [x0]) = children (ensure_nl (Node ROOT (r0 ++ [x0])))) by reflexivity.
+  rewrite ensure_nl_snoc in E. cbn [children] in E. rewrite E.
+  rewrite forallb_app in H. apply andb_prop in H as [H1 H2]. cbn [forallb] in H2. apply andb_prop in H2 as [H2 _].
+  destruct x0 as [k s|k cs]; [discriminate|]. set (x' := ensure_nl (Node k cs)).
+  assert (Ex : x' = Node k (children x')) by reflexivity.
+  assert (Hp : is_paragraph x' = is_paragraph (Node k cs)) by (rewrite Ex; reflexivity).
+  split; [rewrite forallb_app, H1, Ex; reflexivity|]. split; [rewrite !app_length; reflexivity|].
+  split; [rewrite !pidx_app; f_equal; unfold pidx; cbn [filter]; rewrite Hp; destruct (is_paragraph (Node k cs)); reflexivity|].
+  intros n c (pre & P & post & E1 & HP & <- & <-).
+  destruct post as [|y post'] using rev_ind.
+  - apply app_inj_tail in E1 as [E1 E2]. subst r0 P. exists pre, x', []. repeat split; auto.
+  - clear IHpost'. rewrite app_comm_cons, app_assoc in E1. apply app_inj_tail in E1 as [E1 E2]. subst r0 y.
+    exists pre, P, (post' ++ [x']). rewrite <- app_assoc. cbn [app]. auto.
+Qed.
+Lemma forallb_insert_at (p : tree -> bool) idx new l : idx <= length l -> forallb p new = true -> forallb p l = true ->
+  forallb p (insert_at idx new l) = true.
+Proof.
+  intros Hi Hn Hl. rewrite (insert_at_firstn_skipn _ _ _ Hi). rewrite !forallb_app, Hn.
+  rewrite <- (firstn_skipn idx l), forallb_app in Hl. apply andb_prop in Hl as [-> ->]. reflexivity.
+Qed.
+Lemma shift_insert_fixed p (l : list (option href)) :
+  (forall n, In (Some (Live n)) l -> n < p) -> map (option_map (shift_insert p)) l = l.
+Proof.
+  induction l as [|[[n|j]|] r IH]; intros H; cbn [map option_map shift_insert]; [reflexivity| | |].
+  - assert (n < p) by (apply H; now left). assert (p <=? n = false) as -> by (apply Nat.leb_gt; lia).
+    f_equal. apply IH. intros n' Hin. apply H. now right.
+  - f_equal. apply IH. intros n' Hin. apply H. now right.
+  - f_equal. apply IH. intros n' Hin. apply H. now right.
+Qed.
+
+Lemma insert_refines st a index dst tid ri dt rs mregs :
+  regs st = Some (mk_hnd tid []) :: mregs ->
+  a_doc a = Node ROOT rs -> forallb is_node rs = true ->
+  nth_error (trees st) tid = Some (mk_slot ri (Node ROOT rs)) ->
+  length dt = length (a_dead a) -> NoDup (tid :: dt) ->
+  (forall j t, nth_error dt j = Some t ->
+     exists rj D, nth_error (trees st) t = Some (mk_slot rj D) /\ nth_error (a_dead a) j = Some D /\ is_node D = true) ->
+  Forall2 (reg_rel tid dt rs) mregs (a_regs a) ->
+  match index with Some i => i <= length rs | None => True end ->
+  let p := match index with Some i => pidx (firstn i rs) | None => pidx rs end in
+  exists st', insert_empty_paragraph_m 0 index (preg dst) st = Ok (tt, st') /\
+              R st' (mk_astate (Node ROOT (insert_empty_paragraph rs index)) (a_dead a)
+                               (set_opt dst (Some (Live p)) (map (option_map (shift_insert p)) (a_regs a)))).
+Proof.
+  intros Hregs Hdoc Hnodes HT Ldt Hnd Hdead HF Hi p.
+  destruct st as [ts regs0]. cbn [regs trees] in *. subst regs0.
+  pose proof (nth_error_Some_lt _ _ _ HT) as Hlt.
+  destruct (insert_empty_paragraph_spec ts (Some (mk_hnd tid []) :: mregs) tid ri rs index (preg dst) eq_refl ltac:(discriminate) HT Hi)
+    as (ts' & F & Rn & L' & T' & O' & Fp & Fo & Fr & Fc).
+  set (cs1 := match index with None => ensure_nl_list rs | Some _ => rs end) in *.
+  set (has := 0 <? count_nodes cs1) in *.
+  set (idx := match index with Some i => i | None => count_nodes cs1 end) in *.
+  destruct (ensure_nl_list_nodes rs Hnodes) as (N1 & N2 & N3 & N4).
+  assert (Hn1 : forallb is_node cs1 = true) by (unfold cs1; destruct index; assumption).
+  assert (Hl1 : length cs1 = length rs) by (unfold cs1; destruct index; auto).
+  assert (Hlive1 : forall n c, live_at rs n c -> live_at cs1 n c) by (unfold cs1; destruct index; auto).
+  assert (Hidx : idx <= length cs1) by (unfold idx; destruct index; [lia|apply count_nodes_le]).
+  assert (Hp : p = pidx (firstn idx cs1)).
+  { unfold p, idx, cs1. destruct index; [reflexivity|]. rewrite (count_nodes_all _ N1), firstn_all. now rewrite N3. }
+  (* the blocks that are inserted *)
+  set (A := match index with Some _ => [] | None => if has then [blank_line_node] else [] end).
+  set (B := match index with Some _ => if has then [blank_line_node] else [] | None => [] end).
+  assert (Enew : new_blocks index has = A ++ Node PARAGRAPH [] :: B).
+  { unfold new_blocks, A, B. destruct index; [reflexivity|]. destruct has; reflexivity. }
+  assert (Eoff : new_para_offset index has = length A) by (unfold new_para_offset, A; destruct index; [reflexivity|destruct has; reflexivity]).
+  assert (HA : pidx A = 0) by (unfold A; destruct index; [reflexivity|destruct has; reflexivity]).
+  assert (HB : pidx B = 0) by (unfold B; destruct index; [destruct has; reflexivity|reflexivity]).
+  destruct (live_at_insert cs1 idx A (Node PARAGRAPH []) B 0 0 Hidx eq_refl HA HB) as [Hnewp _].
+  rewrite <- Enew, <- Hp in Hnewp.
+  assert (Ers : insert_empty_paragraph rs index = insert_at idx (new_blocks index has) cs1) by apply insert_empty_paragraph_eq.
+  eexists. split; [exact Rn|].
+  rewrite map_set_reg_l. cbn [preg set_reg_l map option_map]. rewrite Fr, Fp, Eoff.
+  exists tid, ri, dt, (insert_empty_paragraph rs index), (set_reg_l dst (Some (mk_hnd tid [idx + length A])) (map (option_map F) mregs)).
+  cbn [regs trees a_doc a_dead a_regs]. split; [reflexivity|]. split; [reflexivity|]. split.
+  { rewrite Ers. apply forallb_insert_at; [exact Hidx| |exact Hn1]. rewrite Enew, forallb_app. unfold A, B.
+    destruct index, has; reflexivity. }
+  split; [exact T'|]. split; [exact Ldt|]. split; [exact Hnd|]. split.
+  { intros j t Hj. destruct (Hdead j t Hj) as (rj & D & HD & Hd & Hn). exists rj, D. split; [|auto].
+    rewrite O'; [exact HD| |now apply nth_error_Some_lt in HD].
+    inversion Hnd; subst. intros ->. apply nth_error_In in Hj. contradiction. }
+  apply Forall2_set_reg.
+  - eapply Forall2_map2; [exact HF|]. intros m0 h0 Hr. destruct m0 as [g0|], h0 as [[n0|j0]|]; cbn [reg_rel option_map shift_insert] in *; auto.
+    + destruct Hr as (c & -> & Hl). destruct (live_at_lt _ _ _ Hl) as [_ Hc].
+      rewrite (Fc c Hc). eexists. split; [reflexivity|].
+      destruct (live_at_insert cs1 idx A (Node PARAGRAPH []) B n0 c Hidx eq_refl HA HB) as [_ Hb].
+      rewrite <- Enew, <- Hp, <- Ers in Hb. apply Hb, Hlive1, Hl.
+    + destruct Hr as (t & Ht & ->). exists t. split; [exact Ht|].
+      destruct (Hdead j0 t Ht) as (rj & D & HD & _). apply Fo; [now apply nth_error_Some_lt in HD|].
+      cbn. inversion Hnd; subst. intros ->. apply nth_error_In in Ht. contradiction.
+  - cbn [reg_rel]. eexists. split; [reflexivity|]. rewrite Ers. exact Hnewp.
+Qed.
+
+Lemma hadd_refines st a dst : R st a ->
+  exists x st', run_hop (HAdd dst) st = Ok (x, st') /\ R st' (hstep (HAdd dst) a).
+Proof.
+  intros (tid & ri & dt & rs & mregs & Hregs & Hdoc & Hnodes & HT & Ldt & Hnd & Hdead & HF).
+  destruct (insert_refines st a None dst tid ri dt rs mregs Hregs Hdoc Hnodes HT Ldt Hnd Hdead HF I) as (st' & Rn & HR).
+  eexists. exists st'. split.
+  { cbn [run_hop]. unfold add_paragraph_m, mbind. rewrite Rn. reflexivity. }
+  cbn [hstep tstep2]. rewrite Hdoc, npara_pidx. unfold add_paragraph. cbn [children].
+  rewrite shift_insert_fixed in HR; [exact HR|].
+  intros n Hin. destruct (Forall2_In_r _ _ _ _ HF Hin) as ([g|] & _ & Hr); cbn [reg_rel] in Hr; [|contradiction].
+  destruct Hr as (c & _ & Hl). now apply live_at_lt in Hl.
 Qed.
